@@ -22,7 +22,8 @@ from ..runner import CaseResult, digest
 ID = "C15"
 RULE = ("domains ma1 / ma2 / ma3 x agents 2 (quick) / 3 (thorough); every valid sequential plan of length <= 4 (quick) / "
         "5 (thorough, 2 agents) / 4 (3 agents) from the initial state (BFS over applicable calls), each converted from a "
-        "plan file in 2 layouts x concurrency constraint on/off; one case = one (domain, agents, first two steps) family. "
+        "plan file in 2 layouts x concurrency constraint on/off; one case = one (domain, agents, first two steps) family; plus every prefix of the shipped sokoban (28 steps, 2 agents) "
+        "and depots (100 steps, 10 agents) sequential plans. "
         "non-trivial = a plan in which some joint action has >= 2 members")
 ASSUMPTIONS = ["every action names exactly one agent, as its first argument",
                "interference is defined semantically (every member order executable and confluent in the step's pre-state)"]
@@ -45,6 +46,33 @@ def cases(tier):
                 for c2 in calls:
                     if _app(S, c2, s1, objs):
                         yield {"domain": name, "agents": n, "prefix": [[c1[0], *c1[1]], [c2[0], *c2[1]]], "length": L}
+    for files in SHIPPED:
+        for lo in range(0, 100, 10):
+            yield {"kind": "shipped", "files": list(files), "prefixes": list(range(lo + 1, lo + 11)), "domain": files[0]}
+
+
+SHIPPED = [("sokoban_domain.pddl", "sokoban_problem.pddl", "sokoban_plan.txt"),
+           ("depots_domain.pddl", "depots_problem.pddl", "depots_plan.txt")]
+
+
+def shipped_world(dom_file, prob_file, plan_file):
+    import os
+    from types import SimpleNamespace
+    from ..bridge import REPO
+    from ..refsem import RefDomain, RefProblem
+    base = os.path.join(REPO, "tests", "multi_agent_tests")
+    dt, pt = open(os.path.join(base, dom_file)).read(), open(os.path.join(base, prob_file)).read()
+    S, RP = RefDomain.from_tree(sexp.read(dt)), RefProblem.from_tree(sexp.read(pt))
+    plan = []
+    for ln in open(os.path.join(base, plan_file)).read().splitlines():
+        if "(" in ln:
+            plan.append(sexp.read(ln[ln.index("("):]))
+    agents = []
+    for s_ in plan:
+        if s_[1] not in agents:
+            agents.append(s_[1])
+    return SimpleNamespace(S=S, RP=RP, objs=S.all_objects(RP.objects), D=parse_domain(dt), ptext=pt, agents=agents,
+                           per={}), plan
 
 
 def _app(S, c, st, objs):
@@ -172,6 +200,25 @@ def interference_kind(w, members, st):
 
 def check_case(case):
     r = CaseResult()
+    if case.get("kind") == "shipped":
+        w, plan = shipped_world(*case["files"])
+        for n in case["prefixes"]:
+            sub = plan[:n]
+            st = w.RP.state()
+            ok = True
+            for s_ in sub:
+                if not _app(w.S, (s_[0], tuple(s_[1:])), st, w.objs):
+                    ok = False
+                    break
+                st = successor(w.S, w.S.actions[s_[0]], tuple(s_[1:]), st, w.objs)
+            if not ok:
+                r.outcome("skip-shipped-plan-invalid-for-the-reference")
+                continue
+            r.seen("states", digest(st.key()))
+            check_plan(r, w, [list(x) for x in sub], st, ["shipped", case["files"][0]])
+            if len(r.fails) >= 6:
+                break
+        return r
     w = world(case["domain"], case["agents"])
     prefix = [list(s) for s in case["prefix"]]
     st = w.RP.state()
